@@ -11,37 +11,46 @@ open Coap.Spec.Block
 theorem crcvStore_key (single : Bool) (cap : Nat) (junk : UInt8) (lg : Crcv) (num m szx : Nat) (payload data : Bytes)
     (offset size2 fmt : Nat) (c' : Crcv)
     (h : (crcvStore single cap junk lg num m szx payload data offset size2 fmt).1 = some c') :
-    c'.initial = lg.initial ∧ c'.etag = lg.etag ∧ c'.etagSet = lg.etagSet ∧ c'.szx = lg.szx := by
+    c'.etag = lg.etag ∧ c'.etagSet = lg.etagSet ∧ c'.szx = lg.szx := by
   unfold crcvStore at h
   dsimp only at h
   by_cases hf : fmt ≠ lg.fmt
-  · rw [if_pos hf] at h; cases h; exact ⟨rfl, rfl, rfl, rfl⟩
+  · rw [if_pos hf] at h; cases h; exact ⟨rfl, rfl, rfl⟩
   · rw [if_neg hf] at h
+    by_cases hsz : szx ≠ lg.szx
+    · rw [if_pos hsz] at h; cases h; exact ⟨rfl, rfl, rfl⟩
+    rw [if_neg hsz] at h
     by_cases hr : checkIfReceived lg.recv num = true
-    · rw [if_pos hr] at h; cases h; exact ⟨rfl, rfl, rfl, rfl⟩
+    · rw [if_pos hr] at h; cases h; exact ⟨rfl, rfl, rfl⟩
     · rw [if_neg hr] at h
       cases hu : updateReceived cap lg.recv num with
       | mk ok rec' =>
         rw [hu] at h
         cases ok with
-        | false => simp only at h; cases h; exact ⟨rfl, rfl, rfl, rfl⟩
+        | false => simp only at h; cases h; exact ⟨rfl, rfl, rfl⟩
         | true =>
           simp only at h
           cases single with
           | false =>
             simp only [Bool.false_eq_true, if_false] at h
             by_cases hc : m ≠ 0 ∨ ¬ checkAllBlocksIn rec' ((size2 + 2 ^ (szx + 4) - 1) / 2 ^ (szx + 4)) = true
-            · rw [if_pos hc] at h; cases h; exact ⟨rfl, rfl, rfl, rfl⟩
+            · rw [if_pos hc] at h; cases h; exact ⟨rfl, rfl, rfl⟩
             · rw [if_neg hc] at h; cases h
           | true =>
             simp only [if_true] at h
             cases hb : buildBody junk lg.body data offset size2 with
-            | none => rw [hb] at h; simp only at h; cases h; exact ⟨rfl, rfl, rfl, rfl⟩
+            | none => rw [hb] at h; simp only at h; cases h; exact ⟨rfl, rfl, rfl⟩
             | some b =>
               rw [hb] at h
               simp only at h
               by_cases hc : m ≠ 0 ∨ ¬ checkAllBlocksIn rec' ((size2 + 2 ^ (szx + 4) - 1) / 2 ^ (szx + 4)) = true
-              · rw [if_pos hc] at h; cases h; exact ⟨rfl, rfl, rfl, rfl⟩
+              · rw [if_pos hc] at h
+                by_cases hm : m ≠ 0
+                · rw [if_pos hm] at h; cases h; exact ⟨rfl, rfl, rfl⟩
+                · rw [if_neg hm] at h
+                  by_cases hsh : data.length % 2 ^ (szx + 4) ≠ 0
+                  · rw [if_pos hsh] at h; cases h; exact ⟨rfl, rfl, rfl⟩
+                  · rw [if_neg hsh] at h; cases h; exact ⟨rfl, rfl, rfl⟩
               · rw [if_neg hc] at h; cases h
 
 theorem crcvInit_key (lg : Crcv) (szx size2 : Nat) (r : Resp) (e : Bytes) (he : r.etag = some e) :
@@ -81,7 +90,7 @@ theorem crcvBlock_key (single : Bool) (cap : Nat) (junk : UInt8) (lg : Crcv) (nu
       cases h
       cases hi'
     · rw [if_neg hne] at h
-      obtain ⟨a, b, c, d⟩ := crcvStore_key _ _ _ _ _ _ _ _ _ _ _ _ c' h
+      obtain ⟨b, c, d⟩ := crcvStore_key _ _ _ _ _ _ _ _ _ _ _ _ c' h
       cases hli : lg.initial with
       | true =>
         obtain ⟨x, y, z⟩ := k1 hli
@@ -697,9 +706,11 @@ theorem b1Rsp_inv (P : B1Par) (hP : B1ParOK P) (s : B1Sys) (ok : Bool) (blk : Op
         | sendNext n m sx p =>
           simp only [List.mem_singleton] at hd'
           rw [hd']
-          obtain ⟨a, b, _, ⟨num0, hb⟩, e⟩ := xmitB1Step_spec x P.room ok blk st' n m sx p hres
+          obtain ⟨a, b, _, ⟨num0, sx0, hb, hs0⟩, e⟩ := xmitB1Step_spec x P.room ok blk st' n m sx p hres
+          have hs1 : sx = sx0 := by rw [hs0]; exact (xmitB1Szx_facts x sx0).2.2.1 (hblk num0 sx0 hb)
+          subst hs1
           have hsx := hinv.rsp ok blk hr num0 sx hb
-          obtain ⟨e1, _⟩ := e c2 (hblk num0 sx hb)
+          obtain ⟨e1, _⟩ := e c2
           rw [c1] at a b e1
           have h6 : sx ≤ 6 := by have := hblk num0 sx hb; have := c2.2.2; omega
           exact ⟨h6, a, b, e1, rfl, Or.inl hsx⟩
@@ -708,7 +719,8 @@ theorem b1Rsp_inv (P : B1Par) (hP : B1ParOK P) (s : B1Sys) (ok : Bool) (blk : Op
         | fail500 => simp only at hd'; cases hd'
   · intro x' hx'
     have hx'' : (xmitB1Step x P.room ok blk).1 = some x' := hx'
-    obtain ⟨a, b, _, num, szx, hb, e⟩ := xmitB1Step_inv x P.room ok blk x' c2 (by rw [c1]; omega) hblk hx''
+    obtain ⟨a, b, _, num, szx, hb, e⟩ := xmitB1Step_inv x P.room ok blk x' c2 (by rw [c1]; omega) hx''
+    rw [(xmitB1Szx_facts x szx).2.2.1 (hblk num szx hb)] at e
     exact ⟨by rw [b, c1], a, Or.inr (by rw [e]; exact hinv.rsp ok blk hr num szx hb)⟩
 
 theorem b1Step_inv (P : B1Par) (hP : B1ParOK P) (s : B1Sys) (e : B1Event) (hinv : B1Inv P s) : B1Inv P (b1Step P s e) := by
